@@ -79,6 +79,8 @@ func vf18VerID(s string) string {
 type vf18Obst struct {
 	p      int
 	sticky bool
+	file   bool // a stale REGULAR staging file (what a swap killed between write and rename leaves), with this mode
+	mode   int
 }
 
 type vf18Sandbox struct {
@@ -546,7 +548,10 @@ func (sb *vf18Sandbox) obstPath(p int) string {
 }
 
 func (sb *vf18Sandbox) installObstacles(l []vf18Obst) {
-	for _, o := range l {
+	for _, o := range l { // directories first, then leftover files (the model's order)
+		if o.file {
+			continue
+		}
 		d := sb.obstPath(o.p)
 		_ = os.RemoveAll(d)
 		if err := os.MkdirAll(d, 0o755); err != nil {
@@ -554,6 +559,19 @@ func (sb *vf18Sandbox) installObstacles(l []vf18Obst) {
 		}
 		if o.sticky {
 			_ = os.WriteFile(filepath.Join(d, "keep"), []byte("x"), 0o644)
+		}
+	}
+	for _, o := range l {
+		if !o.file {
+			continue
+		}
+		d := sb.obstPath(o.p)
+		_ = os.RemoveAll(d)
+		if os.MkdirAll(filepath.Dir(d), 0o755) != nil {
+			continue
+		}
+		if os.WriteFile(d, []byte("half-written bytes of a swap that was killed\n"), 0o600) == nil {
+			_ = os.Chmod(d, vf18GoMode(o.mode))
 		}
 	}
 }
@@ -745,6 +763,11 @@ func vf18Obsts(s string) []vf18Obst {
 	for _, it := range strings.Split(s, ",") {
 		parts := strings.Split(it, ":")
 		p, _ := strconv.Atoi(parts[0])
+		if len(parts) > 1 && strings.HasPrefix(parts[1], "f") {
+			m, _ := strconv.ParseInt(parts[1][1:], 8, 32)
+			out = append(out, vf18Obst{p: p, file: true, mode: int(m)})
+			continue
+		}
 		out = append(out, vf18Obst{p: p, sticky: len(parts) > 1 && parts[1] == "s"})
 	}
 	return out
